@@ -99,6 +99,32 @@ func init() {
 		"  | None => Ok (subGraphInterrupts ++ subpairs completedTasks, interruptRerunNodes ++ reruns completedTasks,\n"+
 		"                interruptAfterNodes ++ afters r_interruptAfterNodes completedTasks)\n"+
 		"  end.\n")
+	register("intrcfg", c06ExtractCfg)
+	registerFallback("intrcfg", "IntrCfg.v", "(* Gen/IntrCfg.v — translator tie UNAVAILABLE: tools/go2v (extractor \"intrcfg\") did not recognise the shape of\n"+
+		"   compose/interrupt.go (WithInterruptBeforeNodes, WithInterruptAfterNodes) / compose/graph.go (graph.compile); the\n"+
+		"   model's reading (the lists reach the runner as given) is re-exported. *)\n"+c06Hdr+"Open Scope N_scope.\n\n"+
+		"Definition with_interrupt_before_nodes (unk : string -> list N -> list N) (nodes : list N) (o : copts) : copts := set_opt_before nodes o.\n"+
+		"Definition with_interrupt_after_nodes (unk : string -> list N -> list N) (nodes : list N) (o : copts) : copts := set_opt_after nodes o.\n"+
+		"Definition runner_interrupt_before_nodes (unk : string -> list N -> list N) (opt : copts) : list N := opt_before opt.\n"+
+		"Definition runner_interrupt_after_nodes (unk : string -> list N -> list N) (opt : copts) : list N := opt_after opt.\n")
+	register("intrhandle", c06ExtractHandle)
+	registerFallback("intrhandle", "IntrHandle.v", "(* Gen/IntrHandle.v — translator tie UNAVAILABLE: tools/go2v (extractor \"intrhandle\") did not recognise the shape of\n"+
+		"   handleInterrupt / handleInterruptWithSubGraphAndRerunNodes (compose/graph_run.go) or of the records checkpoint /\n"+
+		"   InterruptInfo; the model's own constructions are re-exported. *)\n"+c06Hdr+"Open Scope N_scope.\n\n"+
+		"Definition tie_available : bool := false.\n\n"+
+		"Definition handle_interrupt {V CS GS SCP SINFO : Type} (r_runCtx_non_nil : bool) (ctx_state : option GS) (gs_nil : GS)\n"+
+		"    (interruptBeforeNodes interruptAfterNodes : list N) (nextTasks : list (N * V)) (channels : CS)\n"+
+		"    (isStream isSubGraph checkPointID_non_nil : bool) : hexit V CS GS SCP SINFO :=\n"+
+		"  exit_of isSubGraph checkPointID_non_nil\n"+
+		"    (plain_interrupt channels (state_view r_runCtx_non_nil ctx_state gs_nil) nextTasks interruptBeforeNodes interruptAfterNodes).\n\n"+
+		"Definition handle_interrupt_with_sub_graph_and_rerun_nodes {V CS GS SCP SINFO : Type} (zero : V) (fold : CS -> list (N * V) -> res CS)\n"+
+		"    (r_runCtx_non_nil : bool) (ctx_state : option GS) (gs_nil : GS)\n"+
+		"    (interruptRerunNodes : list N) (subGraphInterrupts : list (N * (SCP * SINFO))) (interruptAfterNodes : list N)\n"+
+		"    (completeTasks : list (N * @texec V SCP SINFO)) (interruptBeforeNodes : list N) (pendingTasks : list (N * V))\n"+
+		"    (checkPointID_non_nil isSubGraph : bool) (cm : CS) (isStream : bool) : hexit V CS GS SCP SINFO :=\n"+
+		"  exit_of isSubGraph checkPointID_non_nil\n"+
+		"    (handle_sub_rerun zero fold cm (state_view r_runCtx_non_nil ctx_state gs_nil) interruptRerunNodes subGraphInterrupts\n"+
+		"       interruptAfterNodes completeTasks interruptBeforeNodes pendingTasks).\n")
 	register("intrerr", c06ExtractErr)
 	registerFallback("intrerr", "IntrErr.v", "(* Gen/IntrErr.v — translator tie UNAVAILABLE: tools/go2v (extractor \"intrerr\") did not recognise the shape of\n"+
 		"   compose/interrupt.go (ExtractInterruptInfo, isSubGraphInterrupt); the model's own functions are re-exported. *)\n"+c06Hdr+"Open Scope N_scope.\n\n"+
@@ -158,12 +184,18 @@ type c06Tr struct {
 	idxLoops map[string]string // index variable -> list it walks (for l[i])
 	hitFn    string            // how getHitKey is called ("" = not available in this function)
 	usesUnk  bool
+	proc     *c06ProcCfg // non-nil: the vocabulary of handleInterrupt / handleInterruptWithSubGraphAndRerunNodes
 }
 
 func (t *c06Tr) src(e ast.Expr) string { return c06Squash(types.ExprString(e)) }
 
 // expressions of list / key / error type
 func (t *c06Tr) expr(e ast.Expr) (string, error) {
+	if t.proc != nil {
+		if s, ok, err := t.procExpr(e); ok {
+			return s, err
+		}
+	}
 	switch x := e.(type) {
 	case *ast.ParenExpr:
 		return t.expr(x.X)
@@ -280,6 +312,11 @@ func (t *c06Tr) isErrExpr(e ast.Expr) bool {
 }
 
 func (t *c06Tr) cond(e ast.Expr) (string, error) {
+	if t.proc != nil {
+		if s, ok := t.procCond(e); ok {
+			return s, nil
+		}
+	}
 	switch x := e.(type) {
 	case *ast.ParenExpr:
 		return t.cond(x.X)
@@ -293,6 +330,9 @@ func (t *c06Tr) cond(e ast.Expr) (string, error) {
 	case *ast.SelectorExpr:
 		if id, ok := x.X.(*ast.Ident); ok && t.recv != "" && id.Name == t.recv {
 			return t.recv + "_" + x.Sel.Name, nil // a boolean field of the receiver
+		}
+		if t.src(x) == "tm.needAll" { // the mode of the task manager
+			return "t_needAll", nil
 		}
 	case *ast.BinaryExpr:
 		switch x.Op {
@@ -409,6 +449,10 @@ func c06Assigned(e ast.Expr) string {
 		return c06Assigned(x.X)
 	case *ast.ParenExpr:
 		return c06Assigned(x.X)
+	case *ast.SelectorExpr: // a field of a local record: its own variable
+		if id, ok := x.X.(*ast.Ident); ok {
+			return id.Name + "_" + x.Sel.Name
+		}
 	}
 	return ""
 }
@@ -500,6 +544,11 @@ func (f *c06Fn) stmts(l []ast.Stmt, ind string, k func(ind string) (string, erro
 		return k(ind)
 	}
 	rest := func(ind string) (string, error) { return f.stmts(l[1:], ind, k) }
+	if f.proc != nil {
+		if s, ok, err := f.procStmt(l, ind, k); ok {
+			return s, err
+		}
+	}
 	switch x := l[0].(type) {
 	case *ast.DeclStmt:
 		gd, ok := x.Decl.(*ast.GenDecl)
@@ -1709,4 +1758,738 @@ func c06ExtractErr(repo string) (string, string, error) {
 	fmt.Fprintf(&b, "Definition extract_interrupt_info {INFO CP : Type} (%s : option (gerr INFO CP)) : option INFO * bool :=\n  %s.\n\n", p1, b1)
 	fmt.Fprintf(&b, "Definition is_sub_graph_interrupt_err {INFO CP : Type} (%s : option (gerr INFO CP)) : option (INFO * CP) :=\n  %s.\n", p2, b2)
 	return "IntrErr.v", b.String(), nil
+}
+
+// ------------------------------------------------------------------------------------------------
+// how the interrupt lists travel from the application to the runner:
+//   compose/interrupt.go  WithInterruptBeforeNodes / WithInterruptAfterNodes:  options.<field> = <expr over nodes>
+//   compose/graph.go      (*graph).compile:  r.interruptBeforeNodes = <expr over opt>, r.interruptAfterNodes = <expr over opt>
+// An expression is a parameter, a field of the options, or a call f(e, …) of something else (kept as
+// [unk "f" e]: recognised but different).
+
+func c06CfgExpr(e ast.Expr, param, optVar string) (string, error) {
+	switch x := e.(type) {
+	case *ast.Ident:
+		if x.Name == param && param != "" {
+			return c06Name(param), nil
+		}
+	case *ast.SelectorExpr:
+		if id, ok := x.X.(*ast.Ident); ok && id.Name == optVar {
+			switch x.Sel.Name {
+			case "interruptBeforeNodes":
+				return "(opt_before " + c06Name(optVar) + ")", nil
+			case "interruptAfterNodes":
+				return "(opt_after " + c06Name(optVar) + ")", nil
+			}
+		}
+	case *ast.CallExpr:
+		if len(x.Args) >= 1 {
+			a, err := c06CfgExpr(x.Args[0], param, optVar)
+			if err != nil {
+				return "", err
+			}
+			return "(unk " + c06CoqStr(c06Squash(types.ExprString(x.Fun))) + " " + a + ")", nil
+		}
+	case *ast.SliceExpr:
+		// l[a:b:c] is the same list of values
+		if x.Low == nil || c06Squash(types.ExprString(x.Low)) == "0" {
+			inner, err := c06CfgExpr(x.X, param, optVar)
+			if err != nil {
+				return "", err
+			}
+			if x.High == nil || c06Squash(types.ExprString(x.High)) == "len("+c06Squash(types.ExprString(x.X))+")" {
+				return inner, nil
+			}
+		}
+	}
+	return "", fmt.Errorf("expression %s", types.ExprString(e))
+}
+
+// func WithX(nodes []string) GraphCompileOption { return func(options *graphCompileOptions) { options.F = e } }
+func c06WithOption(f *ast.File, name, field string) (string, error) {
+	fn := c06TopFunc(f, name)
+	if fn == nil || fn.Body == nil || len(fn.Body.List) != 1 {
+		return "", fmt.Errorf("func %s", name)
+	}
+	names, tys := c06ParamNames(fn)
+	if len(names) != 1 || tys[0] != "[]string" {
+		return "", c06Err(name, "parameters")
+	}
+	ret, ok := fn.Body.List[0].(*ast.ReturnStmt)
+	if !ok || len(ret.Results) != 1 {
+		return "", c06Err(name, "body")
+	}
+	lit, ok := ret.Results[0].(*ast.FuncLit)
+	if !ok || len(lit.Type.Params.List) != 1 || len(lit.Type.Params.List[0].Names) != 1 || len(lit.Body.List) != 1 {
+		return "", c06Err(name, "returned function")
+	}
+	ov := lit.Type.Params.List[0].Names[0].Name
+	as, ok := lit.Body.List[0].(*ast.AssignStmt)
+	if !ok || as.Tok != token.ASSIGN || len(as.Lhs) != 1 || len(as.Rhs) != 1 {
+		return "", c06Err(name, "returned function body")
+	}
+	lhs := c06Squash(types.ExprString(as.Lhs[0]))
+	var setter string
+	switch lhs {
+	case ov + ".interruptBeforeNodes":
+		setter = "set_opt_before"
+	case ov + ".interruptAfterNodes":
+		setter = "set_opt_after"
+	default:
+		return "", c06Err(name, "assigns %s", lhs)
+	}
+	e, err := c06CfgExpr(as.Rhs[0], names[0], ov)
+	if err != nil {
+		return "", c06Err(name, "%v", err)
+	}
+	_ = field
+	return fmt.Sprintf("(unk : string -> list N -> list N) (%s : list N) (%s : copts) : copts := %s %s %s", c06Name(names[0]), c06Name(ov), setter, e, c06Name(ov)), nil
+}
+
+func c06ExtractCfg(repo string) (string, string, error) {
+	fset := token.NewFileSet()
+	fi, err := c06ParseGo(fset, repo, "compose", "interrupt.go")
+	if err != nil {
+		return "", "", err
+	}
+	fg, err := c06ParseGo(fset, repo, "compose", "graph.go")
+	if err != nil {
+		return "", "", err
+	}
+	wb, err := c06WithOption(fi, "WithInterruptBeforeNodes", "interruptBeforeNodes")
+	if err != nil {
+		return "", "", err
+	}
+	wa, err := c06WithOption(fi, "WithInterruptAfterNodes", "interruptAfterNodes")
+	if err != nil {
+		return "", "", err
+	}
+	comp := c06MethodOf(fg, "graph", "compile")
+	if comp == nil || comp.Body == nil {
+		return "", "", fmt.Errorf("method (*graph).compile not found")
+	}
+	names, _ := c06ParamNames(comp)
+	if len(names) != 2 {
+		return "", "", fmt.Errorf("(*graph).compile: parameters")
+	}
+	optVar := names[1]
+	got := map[string]string{}
+	var cfgErr error
+	ast.Inspect(comp.Body, func(n ast.Node) bool {
+		as, ok := n.(*ast.AssignStmt)
+		if !ok || len(as.Lhs) != 1 || len(as.Rhs) != 1 {
+			return true
+		}
+		lhs := c06Squash(types.ExprString(as.Lhs[0]))
+		if lhs != "r.interruptBeforeNodes" && lhs != "r.interruptAfterNodes" {
+			return true
+		}
+		if _, dup := got[lhs]; dup || as.Tok != token.ASSIGN {
+			cfgErr = fmt.Errorf("(*graph).compile: %s is assigned more than once", lhs)
+			return false
+		}
+		e, err := c06CfgExpr(as.Rhs[0], "", optVar)
+		if err != nil {
+			cfgErr = fmt.Errorf("(*graph).compile: %s = %v", lhs, err)
+			return false
+		}
+		got[lhs] = e
+		return true
+	})
+	if cfgErr != nil {
+		return "", "", cfgErr
+	}
+	if got["r.interruptBeforeNodes"] == "" || got["r.interruptAfterNodes"] == "" {
+		return "", "", fmt.Errorf("(*graph).compile: the assignments of r.interruptBeforeNodes / r.interruptAfterNodes not found")
+	}
+	// nothing else in the package writes the runner's lists
+	var b strings.Builder
+	b.WriteString("(* Gen/IntrCfg.v — GENERATED by tools/go2v (extractor \"intrcfg\") from compose/interrupt.go (WithInterruptBeforeNodes,\n" +
+		"   WithInterruptAfterNodes) and compose/graph.go (graph.compile: what the runner's lists are set to). Do not edit. *)\n" + c06Hdr + "Open Scope N_scope.\n\n")
+	b.WriteString("Definition with_interrupt_before_nodes " + wb + ".\n")
+	b.WriteString("Definition with_interrupt_after_nodes " + wa + ".\n")
+	fmt.Fprintf(&b, "Definition runner_interrupt_before_nodes (unk : string -> list N -> list N) (%s : copts) : list N := %s.\n", c06Name(optVar), got["r.interruptBeforeNodes"])
+	fmt.Fprintf(&b, "Definition runner_interrupt_after_nodes (unk : string -> list N -> list N) (%s : copts) : list N := %s.\n", c06Name(optVar), got["r.interruptAfterNodes"])
+	return "IntrCfg.v", b.String(), nil
+}
+
+// ------------------------------------------------------------------------------------------------
+// handleInterrupt / handleInterruptWithSubGraphAndRerunNodes: compiler 1 with the vocabulary of records.
+//
+//   x := &T{F: e, …}            one Gallina variable x_F per field of T (unnamed fields: the zero value)
+//   x.F, x.F = e, x.F[k] = e    the variable x_F
+//   var a, b, c T               three variables
+//   if _, ok := m[k]; ok {…}    match map_get k m with Some _ => … | None => … end
+//   m[k] = m2[k].F              map_put_opt k (option_map T_F (map_get k m2)) m   (a missing key panics in Go)
+//   if r.runCtx != nil { if state, ok := ctx.Value(stateKey{}).(*internalState); ok { … state.state … } }
+//                               if r_runCtx_non_nil then match ctx_state with Some state => … | None => … end
+//   toValue, controls, err := r.resolveCompletedTasks(ctx, X, isStream, cm) ; cm.updateValues(ctx, toValue) ;
+//   cm.updateDependencies(ctx, controls), each with its error test:  match fold cm (outs X) with Ok cm => … end
+//   r.checkPointer.convertCheckPoint(cp, isStream)      nothing (values and streams are one in the model)
+//   r.checkPointer.set(ctx, *checkPointID, cp)          store_written := true
+//   return &subGraphInterruptError{Info: i, CheckPoint: c}   HToParent i c
+//   return &interruptError{Info: i}                          HInterrupt i cp store_written
+
+type c06ProcCfg struct {
+	structs   map[string][]string // struct type -> fields
+	locals    map[string]string   // local record variable -> struct type
+	stateVar  string              // the variable bound by the ctx-state pattern
+	taskKind  map[string]string   // []*task parameter / variable -> "tex" | "V"
+	ptrParams map[string]bool     // pointer parameters tested against nil
+}
+
+// the zero value of a field of checkpoint / InterruptInfo
+var c06FieldZero = map[string]string{
+	"checkpoint.Inputs": "(@nil (N * V))", "checkpoint.State": "gs_nil", "checkpoint.SkipPreHandler": "(@nil (N * bool))",
+	"checkpoint.SubGraphs": "(@nil (N * SCP))",
+	"InterruptInfo.State":  "gs_nil", "InterruptInfo.BeforeNodes": "(@nil N)", "InterruptInfo.AfterNodes": "(@nil N)",
+	"InterruptInfo.RerunNodes": "(@nil N)", "InterruptInfo.SubGraphs": "(@nil (N * SINFO))",
+}
+
+func c06EmptyOf(goType string) (string, bool) {
+	switch c06Squash(goType) {
+	case "map[string]bool":
+		return "(@nil (N * bool))", true
+	case "map[string]any":
+		return "(@nil (N * V))", true
+	case "map[string]*checkpoint":
+		return "(@nil (N * SCP))", true
+	case "map[string]*InterruptInfo":
+		return "(@nil (N * SINFO))", true
+	case "[]*task":
+		return "(@nil (N * tex))", true
+	}
+	return c06NilOf(goType, "tex")
+}
+
+func (t *c06Tr) procExpr(e ast.Expr) (string, bool, error) {
+	p := t.proc
+	switch x := e.(type) {
+	case *ast.Ident:
+		if x.Name == "true" || x.Name == "false" {
+			return x.Name, true, nil
+		}
+	case *ast.SelectorExpr:
+		if id, ok := x.X.(*ast.Ident); ok {
+			if _, ok := p.locals[id.Name]; ok {
+				return id.Name + "_" + x.Sel.Name, true, nil
+			}
+			if id.Name == "cm" && x.Sel.Name == "channels" {
+				return "cm", true, nil
+			}
+			if id.Name == p.stateVar && p.stateVar != "" && x.Sel.Name == "state" {
+				return c06Name(id.Name), true, nil
+			}
+			if x.Sel.Name == "input" {
+				return "(snd " + c06Name(id.Name) + ")", true, nil
+			}
+		}
+	case *ast.CallExpr:
+		s := t.src(x)
+		if strings.HasSuffix(s, ".call.action.inputZeroValue()") || strings.HasSuffix(s, ".call.action.inputEmptyStream()") {
+			return "zero", true, nil
+		}
+	}
+	return "", false, nil
+}
+
+func (t *c06Tr) procCond(e ast.Expr) (string, bool) {
+	be, ok := e.(*ast.BinaryExpr)
+	if !ok || (be.Op != token.NEQ && be.Op != token.EQL) || !c06IsNil(be.Y) {
+		return "", false
+	}
+	var v string
+	switch t.src(be.X) {
+	case t.recv + ".runCtx":
+		v = t.recv + "_runCtx_non_nil"
+	default:
+		id, ok := be.X.(*ast.Ident)
+		if !ok || !t.proc.ptrParams[id.Name] {
+			return "", false
+		}
+		v = c06Name(id.Name) + "_non_nil"
+	}
+	if be.Op == token.EQL {
+		return "(negb " + v + ")", true
+	}
+	return v, true
+}
+
+// `err (:)= CALL` followed by `if err != nil { return … }`
+func (f *c06Fn) procUnit(l []ast.Stmt) (call *ast.CallExpr, lhs []string, ok bool) {
+	if len(l) < 2 {
+		return nil, nil, false
+	}
+	as, ok1 := l[0].(*ast.AssignStmt)
+	if !ok1 || len(as.Rhs) != 1 || (as.Tok != token.ASSIGN && as.Tok != token.DEFINE) {
+		return nil, nil, false
+	}
+	c, ok2 := as.Rhs[0].(*ast.CallExpr)
+	if !ok2 {
+		return nil, nil, false
+	}
+	for _, e := range as.Lhs {
+		id, ok := e.(*ast.Ident)
+		if !ok {
+			return nil, nil, false
+		}
+		lhs = append(lhs, id.Name)
+	}
+	if len(lhs) == 0 || lhs[len(lhs)-1] != "err" {
+		return nil, nil, false
+	}
+	is, ok3 := l[1].(*ast.IfStmt)
+	if !ok3 || is.Init != nil || is.Else != nil || f.src(is.Cond) != "err!=nil" || len(is.Body.List) != 1 {
+		return nil, nil, false
+	}
+	if r, ok := is.Body.List[0].(*ast.ReturnStmt); !ok || len(r.Results) != 1 {
+		return nil, nil, false
+	}
+	return c, lhs, true
+}
+
+func (f *c06Fn) procStmt(l []ast.Stmt, ind string, k func(string) (string, error)) (string, bool, error) {
+	p := f.proc
+	rest := func(ind string) (string, error) { return f.stmts(l[1:], ind, k) }
+	fail := func(format string, a ...any) (string, bool, error) { return "", true, c06Err(f.where, format, a...) }
+	// ---- call units
+	if call, lhs, ok := f.procUnit(l); ok {
+		after := func(n int) func(string) (string, error) {
+			return func(ind string) (string, error) { return f.stmts(l[n:], ind, k) }
+		}
+		fn := f.src(call.Fun)
+		switch {
+		case fn == f.recv+".resolveCompletedTasks" && len(lhs) == 3:
+			// the three steps that fold completed tasks into the channels
+			if len(call.Args) != 4 || f.src(call.Args[3]) != "cm" {
+				return fail("resolveCompletedTasks is not given cm")
+			}
+			c2, l2, ok2 := f.procUnit(l[2:])
+			if !ok2 || len(l) < 6 {
+				return fail("resolveCompletedTasks is not followed by updateValues")
+			}
+			c3, l3, ok3 := f.procUnit(l[4:])
+			if !ok3 {
+				return fail("updateValues is not followed by updateDependencies")
+			}
+			if f.src(c2.Fun) != "cm.updateValues" || len(c2.Args) != 2 || f.src(c2.Args[1]) != lhs[0] || len(l2) != 1 ||
+				f.src(c3.Fun) != "cm.updateDependencies" || len(c3.Args) != 2 || f.src(c3.Args[1]) != lhs[1] || len(l3) != 1 {
+				return fail("the values / dependencies resolved are not the ones written to the channels")
+			}
+			x, err := f.expr(call.Args[1])
+			if err != nil {
+				return "", true, err
+			}
+			r, err := after(6)(ind)
+			return "match fold cm (outs " + x + ") with\n" + ind + "| Ok cm =>\n" + ind + r + "\n" + ind + "| r => HFail (chan_err r)\n" + ind + "end", true, err
+		case fn == f.recv+".checkPointer.convertCheckPoint" && len(lhs) == 1:
+			if len(call.Args) != 2 || p.locals[f.src(call.Args[0])] != "checkpoint" {
+				return fail("convertCheckPoint")
+			}
+			r, err := after(2)(ind)
+			return r, true, err
+		case fn == f.recv+".checkPointer.set" && len(lhs) == 1:
+			if len(call.Args) != 3 || f.src(call.Args[1]) != "*checkPointID" || p.locals[f.src(call.Args[2])] != "checkpoint" {
+				return fail("checkPointer.set is not given *checkPointID and the checkpoint")
+			}
+			r, err := after(2)(ind)
+			return "let store_written := true in\n" + ind + r, true, err
+		}
+		return fail("call of %s", fn)
+	}
+	switch x := l[0].(type) {
+	case *ast.DeclStmt: // var a, b, c T
+		gd, ok := x.Decl.(*ast.GenDecl)
+		if !ok || gd.Tok != token.VAR || len(gd.Specs) != 1 {
+			break
+		}
+		vs := gd.Specs[0].(*ast.ValueSpec)
+		if len(vs.Values) != 0 {
+			break
+		}
+		ty, ok := c06EmptyOf(types.ExprString(vs.Type))
+		if !ok {
+			return fail("declaration of type %s", types.ExprString(vs.Type))
+		}
+		r, err := rest(ind)
+		out := ""
+		for _, n := range vs.Names {
+			out += "let " + c06Name(n.Name) + " := " + ty + " in\n" + ind
+		}
+		return out + r, true, err
+	case *ast.AssignStmt:
+		if len(x.Lhs) != 1 || len(x.Rhs) != 1 {
+			break
+		}
+		// x := &T{…}
+		if u, ok := x.Rhs[0].(*ast.UnaryExpr); ok && u.Op == token.AND && x.Tok == token.DEFINE {
+			cl, ok := u.X.(*ast.CompositeLit)
+			id, ok2 := x.Lhs[0].(*ast.Ident)
+			if !ok || !ok2 {
+				break
+			}
+			ty := f.src(cl.Type)
+			fields, ok := p.structs[ty]
+			if !ok {
+				return fail("a literal of type %s", ty)
+			}
+			given := map[string]string{}
+			for _, el := range cl.Elts {
+				kv, ok := el.(*ast.KeyValueExpr)
+				if !ok {
+					return fail("a positional field in a literal of %s", ty)
+				}
+				var v string
+				var err error
+				switch val := kv.Value.(type) {
+				case *ast.CompositeLit:
+					if len(val.Elts) != 0 {
+						return fail("a non-empty literal in a field of %s", ty)
+					}
+					e, ok := c06EmptyOf(types.ExprString(val.Type))
+					if !ok {
+						return fail("field %s of %s", f.src(kv.Key), ty)
+					}
+					v = e
+				case *ast.CallExpr:
+					if f.src(val.Fun) == "make" && len(val.Args) >= 1 {
+						e, ok := c06EmptyOf(types.ExprString(val.Args[0]))
+						if !ok {
+							return fail("field %s of %s", f.src(kv.Key), ty)
+						}
+						v = e
+						break
+					}
+					v, err = f.expr(kv.Value)
+				default:
+					v, err = f.expr(kv.Value)
+				}
+				if err != nil {
+					return "", true, err
+				}
+				given[f.src(kv.Key)] = v
+			}
+			p.locals[id.Name] = ty
+			out := ""
+			for _, fld := range fields {
+				v, ok := given[fld]
+				if !ok {
+					if v, ok = c06FieldZero[ty+"."+fld]; !ok {
+						return fail("field %s of %s is not set", fld, ty)
+					}
+				}
+				delete(given, fld)
+				out += "let " + id.Name + "_" + fld + " := " + v + " in\n" + ind
+			}
+			if len(given) != 0 {
+				return fail("a literal of %s sets a field the translation does not know", ty)
+			}
+			r, err := rest(ind)
+			return out + r, true, err
+		}
+		// x := false / map[…]…{} / make(…)
+		if id, ok := x.Lhs[0].(*ast.Ident); ok && x.Tok == token.DEFINE {
+			switch v := x.Rhs[0].(type) {
+			case *ast.CompositeLit:
+				if len(v.Elts) == 0 {
+					if e, ok := c06EmptyOf(types.ExprString(v.Type)); ok {
+						r, err := rest(ind)
+						return "let " + c06Name(id.Name) + " := " + e + " in\n" + ind + r, true, err
+					}
+				}
+			case *ast.CallExpr:
+				if f.src(v.Fun) == "make" && len(v.Args) >= 1 {
+					if e, ok := c06EmptyOf(types.ExprString(v.Args[0])); ok {
+						r, err := rest(ind)
+						return "let " + c06Name(id.Name) + " := " + e + " in\n" + ind + r, true, err
+					}
+				}
+			}
+		}
+		// m[k] = m2[k2].F
+		if ix, ok := x.Lhs[0].(*ast.IndexExpr); ok && x.Tok == token.ASSIGN {
+			if sel, ok := x.Rhs[0].(*ast.SelectorExpr); ok {
+				if ix2, ok := sel.X.(*ast.IndexExpr); ok {
+					v := c06Assigned(x.Lhs[0])
+					key, err := f.expr(ix.Index)
+					if err != nil {
+						return "", true, err
+					}
+					m2, err := f.expr(ix2.X)
+					if err != nil {
+						return "", true, err
+					}
+					key2, err := f.expr(ix2.Index)
+					if err != nil {
+						return "", true, err
+					}
+					r, err := rest(ind)
+					return "let " + c06Name(v) + " := map_put_opt " + key + " (option_map sub_interrupt_" + sel.Sel.Name + " (map_get " + key2 + " " + m2 + ")) " + c06Name(v) + " in\n" + ind + r, true, err
+				}
+			}
+		}
+	case *ast.IfStmt:
+		if x.Init == nil {
+			break
+		}
+		as, ok := x.Init.(*ast.AssignStmt)
+		if !ok || as.Tok != token.DEFINE || len(as.Lhs) != 2 || len(as.Rhs) != 1 || f.src(x.Cond) != f.src(as.Lhs[1]) || x.Else != nil {
+			break
+		}
+		after := rest
+		branch := func(ind string) (string, error) {
+			if c06Always(x.Body.List) {
+				return f.stmts(x.Body.List, ind, func(string) (string, error) { return "", c06Err(f.where, "internal: unreachable continuation") })
+			}
+			return f.stmts(x.Body.List, ind, after)
+		}
+		// if _, ok := m[k]; ok { … }
+		if ix, ok := as.Rhs[0].(*ast.IndexExpr); ok && f.src(as.Lhs[0]) == "_" {
+			m, err := f.expr(ix.X)
+			if err != nil {
+				return "", true, err
+			}
+			key, err := f.expr(ix.Index)
+			if err != nil {
+				return "", true, err
+			}
+			th, err := branch(ind + "    ")
+			if err != nil {
+				return "", true, err
+			}
+			el, err := after(ind + "    ")
+			return "match map_get " + key + " " + m + " with\n" + ind + "| Some _ =>\n" + ind + "    " + th + "\n" + ind + "| None =>\n" + ind + "    " + el + "\n" + ind + "end", true, err
+		}
+		// if state, ok := ctx.Value(stateKey{}).(*internalState); ok { … }
+		if ta, ok := as.Rhs[0].(*ast.TypeAssertExpr); ok && f.src(ta.X) == "ctx.Value(stateKey{})" && f.src(ta.Type) == "*internalState" {
+			v := f.src(as.Lhs[0])
+			saved := p.stateVar
+			p.stateVar = v
+			th, err := branch(ind + "    ")
+			p.stateVar = saved
+			if err != nil {
+				return "", true, err
+			}
+			el, err := after(ind + "    ")
+			return "match ctx_state with\n" + ind + "| Some " + c06Name(v) + " =>\n" + ind + "    " + th + "\n" + ind + "| None =>\n" + ind + "    " + el + "\n" + ind + "end", true, err
+		}
+	}
+	return "", false, nil
+}
+
+func c06StructFields(f *ast.File, name string) []string {
+	for _, d := range f.Decls {
+		gd, ok := d.(*ast.GenDecl)
+		if !ok || gd.Tok != token.TYPE {
+			continue
+		}
+		for _, sp := range gd.Specs {
+			ts := sp.(*ast.TypeSpec)
+			st, ok := ts.Type.(*ast.StructType)
+			if !ok || ts.Name.Name != name {
+				continue
+			}
+			var out []string
+			for _, fl := range st.Fields.List {
+				for _, n := range fl.Names {
+					out = append(out, n.Name)
+				}
+			}
+			return out
+		}
+	}
+	return nil
+}
+
+// the Gallina type of a parameter of the two handlers, by Go type and name
+func c06HandlerParam(name, ty string) (string, bool) {
+	switch ty {
+	case "context.Context":
+		return "", true // not a parameter of the translation
+	case "[]string":
+		return "(" + c06Name(name) + " : list N)", true
+	case "map[string]*subGraphInterruptError":
+		return "(" + c06Name(name) + " : list (N * (SCP * SINFO)))", true
+	case "[]*task":
+		if name == "completeTasks" {
+			return "(" + name + " : list (N * tex))", true
+		}
+		return "(" + c06Name(name) + " : list (N * V))", true
+	case "map[string]channel", "*channelManager":
+		return "(" + c06Name(name) + " : CS)", true
+	case "bool":
+		return "(" + c06Name(name) + " : bool)", true
+	case "*string":
+		return "(" + c06Name(name) + "_non_nil : bool)", true
+	}
+	return "", false
+}
+
+func c06Handler(fr *ast.File, structs map[string][]string, method, gname string) (string, error) {
+	fn := c06MethodOf(fr, "runner", method)
+	if fn == nil || fn.Body == nil {
+		return "", fmt.Errorf("method (*runner).%s not found", method)
+	}
+	recv := fn.Recv.List[0].Names[0].Name
+	names, tys := c06ParamNames(fn)
+	if fn.Type.Results == nil || fn.Type.Results.NumFields() != 1 || c06Squash(types.ExprString(fn.Type.Results.List[0].Type)) != "error" {
+		return "", c06Err(method, "result type")
+	}
+	cfg := &c06ProcCfg{structs: structs, locals: map[string]string{}, taskKind: map[string]string{}, ptrParams: map[string]bool{}}
+	var params []string
+	for i, n := range names {
+		p, ok := c06HandlerParam(n, tys[i])
+		if !ok {
+			return "", c06Err(method, "parameter %s of type %s", n, tys[i])
+		}
+		if tys[i] == "*string" {
+			cfg.ptrParams[n] = true
+		}
+		if tys[i] == "map[string]channel" && n != "channels" || tys[i] == "*channelManager" && n != "cm" {
+			return "", c06Err(method, "the channels are handed over as %s", n)
+		}
+		if p != "" {
+			params = append(params, p)
+		}
+	}
+	tr := &c06Tr{where: method, recv: recv, proc: cfg}
+	c := &c06Fn{c06Tr: tr, vars: c06Vars(fn)}
+	// the flattened fields of the local records are variables too
+	ast.Inspect(fn.Body, func(n ast.Node) bool {
+		as, ok := n.(*ast.AssignStmt)
+		if !ok || as.Tok != token.DEFINE || len(as.Lhs) != 1 || len(as.Rhs) != 1 {
+			return true
+		}
+		if u, ok := as.Rhs[0].(*ast.UnaryExpr); ok && u.Op == token.AND {
+			if cl, ok := u.X.(*ast.CompositeLit); ok {
+				if id, ok := as.Lhs[0].(*ast.Ident); ok {
+					for _, fld := range structs[c06Squash(types.ExprString(cl.Type))] {
+						c.vars = append(c.vars, id.Name+"_"+fld)
+					}
+				}
+			}
+		}
+		return true
+	})
+	c.vars = append(c.vars, "store_written")
+	record := func(tr *c06Tr, v, ty string) (string, error) {
+		if cfg.locals[v] != ty {
+			return "", c06Err(method, "%s is not a %s", v, ty)
+		}
+		switch ty {
+		case "InterruptInfo":
+			return "{| ii_gs := " + v + "_State; ii_before := " + v + "_BeforeNodes; ii_after := " + v + "_AfterNodes; ii_rerun := " + v + "_RerunNodes; ii_subs := " + v + "_SubGraphs |}", nil
+		case "checkpoint":
+			return "{| cp_cs := " + v + "_Channels; cp_inputs := " + v + "_Inputs; cp_gs := " + v + "_State; cp_skip := skip_keys " + v + "_SkipPreHandler; cp_subs := " + v + "_SubGraphs |}", nil
+		}
+		return "", c06Err(method, "record type %s", ty)
+	}
+	theCp := func() string {
+		for v, ty := range cfg.locals {
+			if ty == "checkpoint" {
+				return v
+			}
+		}
+		return ""
+	}
+	c.retTop = func(tr *c06Tr, r *ast.ReturnStmt) (string, error) {
+		if len(r.Results) != 1 {
+			return "", c06Err(method, "return with %d results", len(r.Results))
+		}
+		u, ok := r.Results[0].(*ast.UnaryExpr)
+		if !ok || u.Op != token.AND {
+			return "", c06Err(method, "return of %s", tr.src(r.Results[0]))
+		}
+		cl, ok := u.X.(*ast.CompositeLit)
+		if !ok {
+			return "", c06Err(method, "return of %s", tr.src(r.Results[0]))
+		}
+		flds := map[string]string{}
+		for _, el := range cl.Elts {
+			kv, ok := el.(*ast.KeyValueExpr)
+			if !ok {
+				return "", c06Err(method, "positional field in the returned error")
+			}
+			flds[tr.src(kv.Key)] = tr.src(kv.Value)
+		}
+		switch tr.src(cl.Type) {
+		case "subGraphInterruptError":
+			if len(flds) != 2 {
+				return "", c06Err(method, "subGraphInterruptError literal")
+			}
+			i, err := record(tr, flds["Info"], "InterruptInfo")
+			if err != nil {
+				return "", err
+			}
+			cp, err := record(tr, flds["CheckPoint"], "checkpoint")
+			return "HToParent " + i + " " + cp, err
+		case "interruptError":
+			if len(flds) != 1 {
+				return "", c06Err(method, "interruptError literal")
+			}
+			i, err := record(tr, flds["Info"], "InterruptInfo")
+			if err != nil {
+				return "", err
+			}
+			cp, err := record(tr, theCp(), "checkpoint")
+			return "HInterrupt " + i + " " + cp + " store_written", err
+		}
+		return "", c06Err(method, "return of a %s", tr.src(cl.Type))
+	}
+	body, err := c.stmts(fn.Body.List, "    ", func(string) (string, error) {
+		return "", c06Err(method, "control reaches the end of the function")
+	})
+	if err != nil {
+		return "", err
+	}
+	for _, fld := range c06RecvFields(fn, recv) {
+		switch fld {
+		case "runCtx", "checkPointer", "resolveCompletedTasks":
+		default:
+			return "", c06Err(method, "reads %s.%s", recv, fld)
+		}
+	}
+	return "  Definition " + gname + " " + strings.Join(params, " ") + "\n    : hexit V CS GS SCP SINFO :=\n    let store_written := false in\n    " + body + ".\n", nil
+}
+
+func c06ExtractHandle(repo string) (string, string, error) {
+	fset := token.NewFileSet()
+	fr, err := c06ParseGo(fset, repo, "compose", "graph_run.go")
+	if err != nil {
+		return "", "", err
+	}
+	fc, err := c06ParseGo(fset, repo, "compose", "checkpoint.go")
+	if err != nil {
+		return "", "", err
+	}
+	fi, err := c06ParseGo(fset, repo, "compose", "interrupt.go")
+	if err != nil {
+		return "", "", err
+	}
+	structs := map[string][]string{"checkpoint": c06StructFields(fc, "checkpoint"), "InterruptInfo": c06StructFields(fi, "InterruptInfo")}
+	if strings.Join(structs["checkpoint"], ",") != "Channels,Inputs,State,SkipPreHandler,SubGraphs" {
+		return "", "", fmt.Errorf("type checkpoint has the fields %v", structs["checkpoint"])
+	}
+	if strings.Join(structs["InterruptInfo"], ",") != "State,BeforeNodes,AfterNodes,RerunNodes,SubGraphs" {
+		return "", "", fmt.Errorf("type InterruptInfo has the fields %v", structs["InterruptInfo"])
+	}
+	h1, err := c06Handler(fr, structs, "handleInterrupt", "handle_interrupt")
+	if err != nil {
+		return "", "", err
+	}
+	h2, err := c06Handler(fr, structs, "handleInterruptWithSubGraphAndRerunNodes", "handle_interrupt_with_sub_graph_and_rerun_nodes")
+	if err != nil {
+		return "", "", err
+	}
+	var b strings.Builder
+	b.WriteString("(* Gen/IntrHandle.v — GENERATED by tools/go2v (extractor \"intrhandle\") from compose/graph_run.go (methods handleInterrupt and\n" +
+		"   handleInterruptWithSubGraphAndRerunNodes of runner, translated statement by statement; the records checkpoint and\n" +
+		"   InterruptInfo are read from compose/checkpoint.go and compose/interrupt.go). Do not edit. *)\n" + c06Hdr + "Open Scope N_scope.\n\n")
+	b.WriteString("Section Code.\n  Context {V CS GS SCP SINFO : Type}.\n  Notation tex := (@texec V SCP SINFO).\n" +
+		"  Variable zero : V.\n  Variable fold : CS -> list (N * V) -> res CS.\n" +
+		"  Variable r_runCtx_non_nil : bool.\n  Variable ctx_state : option GS.\n  Variable gs_nil : GS.\n\n" +
+		"  Definition tie_available : bool := true.\n\n")
+	b.WriteString(h1 + "\n" + h2)
+	b.WriteString("End Code.\n")
+	return "IntrHandle.v", b.String(), nil
 }
